@@ -73,13 +73,14 @@ def body(c, judge):
         raise MachineryError("no step for negative control")
     ctrls = []
     if judge == "C05":
-        t, i = find(lambda e: e["op"] == "transpose" and e["after"]["kind"] == "QBytes" and len(e["dq"]) > 2)
+        # (whether an operation keeps its result quantized is the as-built layer: the controls take whatever kind it returned)
+        t, i = find(lambda e: e["op"] == "transpose" and len(e.get("dq", [])) > 2)
         t[i]["dq"][0], t[i]["dq"][1] = t[i]["dq"][1], {"s": 1, "m": [5, 5, 5]}
         ctrls.append(("value-differs", t))
         t, i = find(lambda e: e["op"] == "view")
         t[i]["outcome"] = "RuntimeError"
         ctrls.append(("spurious-raise", t))
-        t, i = find(lambda e: e["op"] == "mul" and e["after"]["kind"] == "QBytes")
+        t, i = find(lambda e: e["op"] == "mul" and len(e.get("dq", [])) > 0)
         t[i]["dq"][0] = {"s": 1, "m": [0, 0, 0, 0, 0, 0, 7]}
         ctrls.append(("rescale-off", t))
     else:
@@ -101,8 +102,11 @@ def body(c, judge):
                 lambda e: e["after"]["codes"].__setitem__(0, [1, 99]))
         control("axis-not-flipped", lambda e: e["op"] == "t" and e["after"]["kind"] == "QBytes" and e["after"]["axis"] != "none",
                 lambda e: e["after"].__setitem__("axis", "first" if e["after"]["axis"] == "last" else "last"))
-        if len(ctrls) < 2:
-            raise MachineryError("fewer than two negative controls could be built")
+        # two controls that do not depend on any operation returning a quantized tensor: the projection of the INITIAL tensor
+        for name, field, bad in (("initial-qtype-misreported", "qt", "qint2"), ("initial-shape-misreported", "shape", [9, 9])):
+            t = copy.deepcopy(next(t for t in tr if t[0].get("act") == "Init" and t[0]["proj"]["kind"] == "QBytes")[:1])
+            t[0]["proj"][field] = bad
+            ctrls.append((name, t))
     c.negative_controls("Trace_TensorOps", ctrls, constants=consts)
     c.assumptions += ["Deq(result) is quanto's own dequantize(), whose correctness is the subject of C01/C02",
                       "operands of where() stay inside the input's quantization range; lattice operand values",
